@@ -93,9 +93,9 @@ PROPS = {
     },
     "C03": {
         "panic_is_violation": True,
-        "proved": '(proofs in progress) model of to_string/to_pretty_string over the binary layout; strict RFC 8259 parser spec',
-        "missing": 'escape/unescape inverse, document-level strictParse(to_string(enc v)) valEq v, pretty = compact modulo whitespace: decided per case by the tostrcheck oracle (Lean strict parser on the model text, serde_json + parse_value on the real text) until the theorems land',
-        "assumptions": ['finite numbers', 'float formatting (ryu) is external: its output is validated per instance (grammar + correctly rounded value = the bits)'],
+        "proved": "for every good document and every float formatter that is good on the document's floats: to_string and to_pretty_string (byte-level walker model over the binary layout) produce text that the independent strict RFC 8259 parser accepts, reading back a value equal to the original (identical when non-negative integers are stored unsigned, hence identical re-encoding); pretty = compact after removing insignificant whitespace; the escaper emits no byte < 0x20 and the strict string reader inverts it for every byte string; integers print/parse exactly",
+        "missing": "nothing about ryu itself: fmtOK (grammar + correctly rounded value = the bits) is checked per instance on ryu's real output by goodFmt; the two-space / one-member-per-line shape is checked on the real text by the harness",
+        "assumptions": ["finite numbers (NaN excluded; infinities print as non-JSON tokens and are outside the property)", "documents are canonical encodings of good values"],
     },
     "C08": {
         "panic_is_violation": True,
